@@ -421,13 +421,16 @@ def surd_cases(lim=7):
     return out
 
 
-def replay(ctx, tally):
-    with open(ctx.replay) as f:
-        blob = json.load(f)
-    job = blob["case"]["job"]
-    process(ctx, tally, [("replay", [job])], "replay")
+def replay(ctx, rec):
+    """re-run exactly the recorded case through the real code (compiled; also interpreted with step
+    events when the grid is small enough for the step model) and the judge"""
+    tally = Tally()
+    job = rec["case"]["job"]
+    process(ctx, tally, [("replay", [dict(job, events=False)])], "replay")
     if job["H"] * job["W"] <= 12:
         process(ctx, tally, [("replay-steps", [dict(job, events=True)])], "replay_steps", interp=True)
+    ctx.extra["violations_by_key"] = tally.by_key
+    ctx.sample({"replayed": rec.get("clause"), "key": rec.get("key"), "rejected_now": tally.by_key})
 
 
 def run(ctx):
@@ -445,10 +448,6 @@ def run(ctx):
         "model allows any of the tied cells (integer ties are resolved row-major first as in the code)",
     ]
     tally = Tally()
-    if ctx.replay:
-        replay(ctx, tally)
-        ctx.extra["violations_by_key"] = tally.by_key
-        return
     rng = random.Random(ctx.seed * 7919 + 14)
 
     skip_m = os.environ.get("VERIF_C14_SKIP_M") == "1"      # development aid for mutation runs (M does not read /repo)
